@@ -60,7 +60,7 @@ def run(run):
     sweep.install()
     cfgs = list(sweep.ALL_CONFIGS)
     if run.thorough:
-        light = {(1, 1): None, (1, 2): None, (2, 1): None, (2, 2): None, (3, 1): None, (3, 2): None, (4, 1): 20, (4, 2): 8}
+        light = {(1, 1): None, (1, 2): None, (2, 1): None, (2, 2): None, (3, 1): None, (3, 2): 250, (4, 1): 20, (4, 2): 8}
         heavy = {(1, 1): None, (2, 1): None, (2, 2): None, (3, 1): None, (3, 2): 60, (4, 1): 4}
         kinit = [(2, 1), (3, 1), (3, 2), (4, 1), (4, 2), (5, 1)]
         kstep = [(n, e) for n in (2, 3, 4, 5) for e in range(n)]
